@@ -66,6 +66,16 @@ Name-Real: GEC3
 Name-Email: gec3@example.com
 Expire-Date: 0
 %commit
+Key-Type: ECDSA
+Key-Curve: nistp521
+Key-Usage: sign,cert
+Subkey-Type: RSA
+Subkey-Length: 2048
+Subkey-Usage: encrypt
+Name-Real: GEC5
+Name-Email: gec5@example.com
+Expire-Date: 0
+%commit
 `
 
 // key is one OpenPGP key known to both sides.
@@ -131,7 +141,7 @@ func newKeyset() (*keyset, error) {
 			fprs = append(fprs, f[2])
 		}
 	}
-	if len(fprs) != 5 {
+	if len(fprs) != 6 {
 		return fail("gpg --gen-key: KEY_CREATED count", r)
 	}
 	// a separate signing subkey on GRSA: both sides must pick/accept it by key flags
@@ -184,7 +194,7 @@ func newKeyset() (*keyset, error) {
 		g.close()
 		return nil, fmt.Errorf("ReadKeyRing(secret export): %v", err)
 	}
-	meta := map[string][3]string{"GRSA": {"RSA", "RSA", "0"}, "GDSA": {"DSA", "ELG", "256"}, "GDS1": {"DSA", "ELG", "160"}, "GECC": {"ECDSA", "RSA", "256"}, "GEC3": {"ECDSA", "RSA", "384"}}
+	meta := map[string][3]string{"GRSA": {"RSA", "RSA", "0"}, "GDSA": {"DSA", "ELG", "256"}, "GDS1": {"DSA", "ELG", "160"}, "GECC": {"ECDSA", "RSA", "256"}, "GEC3": {"ECDSA", "RSA", "384"}, "GEC5": {"ECDSA", "RSA", "512"}}
 	for _, e := range all {
 		for n := range e.Identities {
 			nm := strings.Fields(n)[0]
@@ -194,9 +204,9 @@ func newKeyset() (*keyset, error) {
 			}
 		}
 	}
-	if len(ks.keys) != 8 {
+	if len(ks.keys) != 9 {
 		g.close()
-		return nil, fmt.Errorf("expected 8 keys, have %d (ReadKeyRing returned %d entities)", len(ks.keys), len(all))
+		return nil, fmt.Errorf("expected 9 keys, have %d (ReadKeyRing returned %d entities)", len(ks.keys), len(all))
 	}
 	for _, k := range ks.keys {
 		ks.ring = append(ks.ring, k.ent)
